@@ -1617,7 +1617,6 @@ Definition parse_type_spec (s : pstate) : res nodeT :=
   let* (t, s3) := cur_tok s2 117 in
   match t with
   | TLiteral LIdent _ =>
-      let start2 := preback s3 in
       let* (id, s4) := identifier 118 s3 in
       let* (x, s5) :=
         (if cur_is s4 (KOp OBarackRight) then Ok id s4
@@ -1635,10 +1634,7 @@ Definition parse_type_spec (s : pstate) : res nodeT :=
             let* (_, s6) := goback start s5 in
             let* (params, s7) := type_parameters s6 in
             finish_plain params s7
-          else
-            let* (_, s6) := goback start2 s5 in
-            let* (len, s7) := parse_next_level_expr s6 in
-            array_tail len s7
+          else array_tail x s5
       end
   | TOperator OBarackRight =>
       let* (p1, s4) := expect (KOp OBarackRight) 120 s3 in
